@@ -55,8 +55,8 @@ CHECKS = {
   level="fault_enumeration", design="§5 C13", engine="chainkit",
   technique="crash-point enumeration by fault injection at the database boundary of the real commit path (every store wrapped; the commit is cut after each individual write or batch, all forced orders of SaveBlock's concurrent writers, undo file cut accordingly), restart of a real node on the surviving bytes and a cross-store consistency oracle against a reference replica; pruning lane: generated chains, windows and validator-change heights with a read-back oracle over every retained height",
   text="Crash lane: chains of 4-5 blocks (transfers, A->U, U->U, U->A, contract create/call, duplicate-vote evidence) in trie and flat key-value mode; for every block and every cut k=0..W (W=15-21 units) the node is restarted and block store, balances/nonces/contract storage, spent key images, output index, tx index and receipts, status and VALDK/CSPK records must all reflect the same prefix, the acknowledged block must be present, the interrupted block must be re-committable and one more block must commit; recovery itself is crashed after each of its writes. "
-       "Pruning lane: chain lengths 1..40, K in {1,2,5,10,50,100}, validator changes, 1-3 ticks: for every retained height block, meta, parts, commits, tx index, LoadValidators, LoadConsensusParams must be readable, the seen commit must verify against the loaded validators and evidence of that height must be verifiable; deletion must stay within a 10^6-operation budget. Held on what was explored, modulo two known findings (one root cause).",
-  note="three genuine defects fixed (block-store prune underflow, consensus prune ignoring the window and deleting fallback records, tx index entries above Height()). Known finding: SaveBlock/SaveUtxo window leaves key images unspent after a crash (double spend demonstrated). MemDB with emulated goleveldb read semantics; torn writes inside one batch are not modelled; the consensus WAL is not in the loop (C14/C04)."),
+       "Pruning lane: chain lengths 1..40, K in {1,2,5,10,50,100}, validator changes, 1-3 ticks: for every retained height block, meta, parts, commits, tx index, LoadValidators, LoadConsensusParams must be readable, the seen commit must verify against the loaded validators and evidence of that height must be verifiable; deletion must stay within a 10^6-operation budget. Held on what was explored.",
+  note="four genuine defects fixed (block-store prune underflow, consensus prune ignoring the window and deleting fallback records, tx index entries above Height(), and the SaveBlock/SaveUtxo window that left key images unspent after a crash: double spend demonstrated, now replayed at start-up). MemDB with emulated goleveldb read semantics; torn writes inside one batch are not modelled; the consensus WAL is not in the loop (C14/C04)."),
  "C14": dict(
   level="fault_enumeration", design="§5 C14", engine="core",
   technique="damage enumeration over logs written through the real baseWAL/autofile group (every truncation offset, every single-byte corruption for small logs, crash images of rotated groups) with a record-sequence oracle and an independent frame parser; marker-search oracle",
